@@ -483,10 +483,14 @@ def _ends_with_jump(stmts: List[ast.stmt]) -> bool:
 
 
 def _assigns_name(stmts: List[ast.stmt], name: str) -> bool:
+    """Is the name re-bound by a plain assignment somewhere in the statements?"""
     for st in stmts:
         for n in [st] + list(_walk_no_nested(st)):
-            if isinstance(n, ast.Name) and n.id == name and isinstance(n.ctx, ast.Store):
-                return True
+            if isinstance(n, ast.Assign):
+                for t in n.targets:
+                    for x in ast.walk(t):
+                        if isinstance(x, ast.Name) and x.id == name and isinstance(x.ctx, ast.Store):
+                            return True
     return False
 
 
@@ -714,20 +718,101 @@ def _as_store(t):
 # ---------------------------------------------------------------------------------------------
 # pass 4: expression normal form
 # ---------------------------------------------------------------------------------------------
+# names of functions / methods defined in the repository, and those of them that are syntactically
+# free of effects on their arguments, on self and on globals (set by substitute_all from BOTH the
+# reference and the current tree: a function counts as pure only if it is pure in both)
+_REPO_FUNCS: Set[str] = set()
+_PURE_FUNCS: Set[str] = set()
+_BUILTIN_PURE = {"len", "list", "sorted", "set", "dict", "tuple", "str", "int", "float", "any", "all", "max", "min", "sum", "range", "zip", "enumerate",
+                 "isinstance", "abs", "round", "type", "repr", "bool", "frozenset", "reversed", "map", "filter", "getattr", "hasattr", "id", "iter"}
+
+
+_LIB_PURE_METHODS = {"values", "get", "keys", "items", "index", "copy"}  # dict / list / pandas readers that repo classes also define (as readers)
+
+
+def _function_is_pure(fn, pure: Set[str], repo: Set[str], constructor: bool = False) -> bool:
+    params = set(_params(fn))
+    if constructor:
+        params.discard("self")
+    for n in _walk_no_nested(fn):
+        if isinstance(n, (ast.Global, ast.Nonlocal, ast.Yield, ast.YieldFrom)):
+            return False
+        if isinstance(n, (ast.Attribute, ast.Subscript)) and isinstance(n.ctx, (ast.Store, ast.Del)):
+            base = n
+            while isinstance(base, (ast.Attribute, ast.Subscript)):
+                base = base.value
+            if constructor and isinstance(base, ast.Name) and base.id == "self":
+                continue
+            return False
+        if isinstance(n, ast.AugAssign) and isinstance(n.target, ast.Name) and n.target.id in params:
+            return False
+        if isinstance(n, ast.Call):
+            if any(k.arg == "inplace" for k in n.keywords):
+                return False
+            f = n.func
+            if isinstance(f, ast.Attribute):
+                if f.attr in MUTATORS and f.attr not in PANDAS_PURE:
+                    if constructor and isinstance(f.value, ast.Name) and f.value.id not in params:
+                        continue  # a local of the constructor
+                    if constructor and isinstance(f.value, ast.Attribute) and isinstance(f.value.value, ast.Name) and f.value.value.id == "self":
+                        continue
+                    return False
+                if f.attr in repo and f.attr not in pure and f.attr not in _LIB_PURE_METHODS and f.attr != "__init__":
+                    return False
+            elif isinstance(f, ast.Name):
+                if f.id in ("print", "warn", "setattr", "delattr", "exec", "eval", "open", "next"):
+                    return False
+                if f.id in repo and f.id not in pure:
+                    return False
+    return True
+
+
+def pure_function_names(trees: List[ast.Module]) -> Tuple[Set[str], Set[str]]:
+    funcs: Dict[str, List[ast.FunctionDef]] = {}
+    for t in trees:
+        for n in ast.walk(t):
+            if isinstance(n, (ast.FunctionDef, ast.AsyncFunctionDef)):
+                funcs.setdefault(n.name, []).append(n)
+    classes: Dict[str, List[ast.FunctionDef]] = {}
+    for t in trees:
+        for n in ast.walk(t):
+            if isinstance(n, ast.ClassDef):
+                classes.setdefault(n.name, []).extend(m for m in n.body if isinstance(m, ast.FunctionDef) and m.name == "__init__")
+    repo = set(funcs) | set(classes)
+    pure: Set[str] = set()
+    for _ in range(6):
+        new = {name for name, nodes in funcs.items() if nodes and name != "__init__" and all(_function_is_pure(x, pure, repo) for x in nodes)}
+        # a constructor is pure when its __init__ only builds the new object (GroupedList(...))
+        new |= {c for c, inits in classes.items() if inits and all(_function_is_pure(x, pure, repo, constructor=True) for x in inits) and not any(
+            isinstance(n, ast.Call) and isinstance(n.func, ast.Attribute) and n.func.attr == "__init__" and isinstance(n.func.value, ast.Call) and len(x.args.args) > 3 for x in inits for n in ast.walk(x))}
+        if new == pure:
+            break
+        pure = new
+    return repo, pure
+
+
 def _impure(e) -> bool:
     """May evaluating e have a side effect?  Calls of mutating methods (other than the pandas ones
-    that return a new object), yields, walrus."""
+    that return a new object), of repository functions that are not known to be pure, yields."""
     for n in ast.walk(e):
         if isinstance(n, (ast.Yield, ast.YieldFrom, ast.Await, ast.NamedExpr)):
             return True
-        if isinstance(n, ast.Call) and isinstance(n.func, ast.Attribute) and n.func.attr in MUTATORS and n.func.attr not in PANDAS_PURE:
-            return True
-        if isinstance(n, ast.Call) and any(k.arg == "inplace" for k in n.keywords):
-            return True
-        if isinstance(n, ast.Call) and isinstance(n.func, ast.Attribute) and isinstance(n.func.value, ast.Name) and n.func.value.id == "self" and not n.func.attr.startswith("_get") and n.func.attr not in ("get", "values", "contains", "get_group", "index", "keys", "items", "copy"):
-            return True  # a method of self: may write fitted state
-        if isinstance(n, ast.Call) and isinstance(n.func, ast.Name) and n.func.id in ("print", "warn", "next", "setattr", "delattr", "exec", "eval", "open"):
-            return True
+        if isinstance(n, ast.Call):
+            if any(k.arg == "inplace" for k in n.keywords):
+                return True
+            f = n.func
+            if isinstance(f, ast.Attribute):
+                if f.attr in MUTATORS and f.attr not in PANDAS_PURE:
+                    return True
+                if f.attr in _REPO_FUNCS and f.attr not in _PURE_FUNCS and f.attr not in _LIB_PURE_METHODS:
+                    return True
+                if isinstance(f.value, ast.Call) and isinstance(f.value.func, ast.Name) and f.value.func.id == "super":
+                    return True
+            elif isinstance(f, ast.Name):
+                if f.id in ("print", "warn", "next", "setattr", "delattr", "exec", "eval", "open"):
+                    return True
+                if f.id in _REPO_FUNCS and f.id not in _PURE_FUNCS:
+                    return True
     return False
 
 
@@ -781,6 +866,15 @@ class _ExprCanon(ast.NodeTransformer):
                 else:
                     vals.append(v)
             return ast.BoolOp(op=e.op, values=vals)
+        if isinstance(e, ast.Compare) and len(e.ops) == 1 and isinstance(e.ops[0], (ast.Eq, ast.NotEq)) and all(
+            isinstance(x, ast.Compare) and len(x.ops) == 1 and isinstance(x.ops[0], (ast.In, ast.NotIn, ast.Is, ast.IsNot)) for x in (e.left, e.comparators[0])
+        ):
+            # (a in X) == (b in Y) on two booleans  ->  both or neither
+            A, B = e.left, e.comparators[0]
+            both = ast.BoolOp(op=ast.And(), values=[copy.deepcopy(A), copy.deepcopy(B)])
+            neither = ast.BoolOp(op=ast.And(), values=[_push_not(copy.deepcopy(A)), _push_not(copy.deepcopy(B))])
+            res = ast.BoolOp(op=ast.Or(), values=[both, neither])
+            return self._test(res if isinstance(e.ops[0], ast.Eq) else ast.UnaryOp(op=ast.Not(), operand=res))
         if isinstance(e, ast.Compare) and len(e.ops) == 1:
             # len(L) == 0 / len(L) > 0 on a syntactic list
             l, op, r = e.left, e.ops[0], e.comparators[0]
@@ -867,6 +961,14 @@ class _ExprCanon(ast.NodeTransformer):
 
     def visit_ListComp(self, n):
         self.generic_visit(n)
+        # [i for i, _ in enumerate(L)]  ==  list(range(len(L)))
+        if len(n.generators) == 1 and not n.generators[0].ifs and isinstance(n.elt, ast.Name):
+            g = n.generators[0]
+            if (isinstance(g.target, ast.Tuple) and len(g.target.elts) == 2 and all(isinstance(x, ast.Name) for x in g.target.elts) and g.target.elts[0].id == n.elt.id
+                    and g.target.elts[1].id != n.elt.id and isinstance(g.iter, ast.Call) and isinstance(g.iter.func, ast.Name) and g.iter.func.id == "enumerate" and len(g.iter.args) == 1 and not g.iter.keywords):
+                ln = ast.Call(func=ast.Name(id="len", ctx=ast.Load()), args=[g.iter.args[0]], keywords=[])
+                rg = ast.Call(func=ast.Name(id="range", ctx=ast.Load()), args=[ln], keywords=[])
+                return ast.Call(func=ast.Name(id="list", ctx=ast.Load()), args=[rg], keywords=[])
         if len(n.generators) == 1 and not n.generators[0].ifs and isinstance(n.elt, ast.Name) and isinstance(n.generators[0].target, ast.Name) and n.elt.id == n.generators[0].target.id:
             return ast.Call(func=ast.Name(id="list", ctx=ast.Load()), args=[n.generators[0].iter], keywords=[])
         return n
@@ -878,6 +980,12 @@ class _ExprCanon(ast.NodeTransformer):
             k, v = g[0].target.elts
             if isinstance(n.key, ast.Name) and isinstance(n.value, ast.Name) and n.key.id == k.id and n.value.id == v.id:
                 return ast.Call(func=ast.Name(id="dict", ctx=ast.Load()), args=[g[0].iter], keywords=[])
+            it = g[0].iter
+            if (isinstance(n.key, ast.Name) and isinstance(n.value, ast.Name) and n.key.id == v.id and n.value.id == k.id
+                    and isinstance(it, ast.Call) and isinstance(it.func, ast.Name) and it.func.id == "zip" and len(it.args) == 2 and not it.keywords):
+                # {b: a for a, b in zip(X, Y)}  ==  dict(zip(Y, X))
+                z = ast.Call(func=ast.Name(id="zip", ctx=ast.Load()), args=[it.args[1], it.args[0]], keywords=[])
+                return ast.Call(func=ast.Name(id="dict", ctx=ast.Load()), args=[z], keywords=[])
         return n
 
     def visit_Call(self, n):
@@ -929,6 +1037,14 @@ class _ExprCanon(ast.NodeTransformer):
         return n
 
 
+def _dump_noctx(e) -> str:
+    e = copy.deepcopy(e)
+    for n in ast.walk(e):
+        if hasattr(n, "ctx"):
+            n.ctx = ast.Load()
+    return _dump(e)
+
+
 def _masked_dump(e) -> str:
     """Dump with every plain name masked: an ordering key that does not depend on local names."""
     e = copy.deepcopy(e)
@@ -972,8 +1088,56 @@ def _list_names(fn) -> Set[str]:
     return out
 
 
+def _copy_overwrite(fn):
+    """for i in range(len(L)): t = L[:] ; t[i] = E(t[i]) ; ...   ->   t = L[:i] + [E(L[i])] + L[i + 1:]"""
+    for n in [fn] + list(_walk_no_nested(fn)):
+        if not (isinstance(n, ast.For) and isinstance(n.target, ast.Name) and isinstance(n.iter, ast.Call) and isinstance(n.iter.func, ast.Name) and n.iter.func.id == "range" and len(n.iter.args) == 1):
+            continue
+        a = n.iter.args[0]
+        if not (isinstance(a, ast.Call) and isinstance(a.func, ast.Name) and a.func.id == "len" and len(a.args) == 1 and isinstance(a.args[0], ast.Name)):
+            continue
+        L, i = a.args[0].id, n.target.id
+        body = n.body
+        for k in range(len(body) - 1):
+            s1, s2 = body[k], body[k + 1]
+            if not (isinstance(s1, ast.Assign) and len(s1.targets) == 1 and isinstance(s1.targets[0], ast.Name)):
+                continue
+            t = s1.targets[0].id
+            v = s1.value
+            is_copy = (isinstance(v, ast.Subscript) and isinstance(v.value, ast.Name) and v.value.id == L and isinstance(v.slice, ast.Slice) and v.slice.lower is None and v.slice.upper is None and v.slice.step is None) or (
+                isinstance(v, ast.Call) and isinstance(v.func, ast.Name) and v.func.id == "list" and len(v.args) == 1 and isinstance(v.args[0], ast.Name) and v.args[0].id == L)
+            if not is_copy:
+                continue
+            if not (isinstance(s2, ast.Assign) and len(s2.targets) == 1 and isinstance(s2.targets[0], ast.Subscript) and isinstance(s2.targets[0].value, ast.Name) and s2.targets[0].value.id == t
+                    and isinstance(s2.targets[0].slice, ast.Name) and s2.targets[0].slice.id == i):
+                continue
+            e = copy.deepcopy(s2.value)
+            bad = False
+            for x in ast.walk(e):
+                if isinstance(x, ast.Name) and x.id == t:
+                    x.id = L  # t[i] read before the overwrite is L[i]
+            if any(isinstance(x, ast.Name) and x.id == t for x in ast.walk(e)) or bad or _impure(e):
+                continue
+            idx = lambda: ast.Name(id=i, ctx=ast.Load())  # noqa: E731
+            left = ast.Subscript(value=ast.Name(id=L, ctx=ast.Load()), slice=ast.Slice(lower=None, upper=idx(), step=None), ctx=ast.Load())
+            right = ast.Subscript(value=ast.Name(id=L, ctx=ast.Load()), slice=ast.Slice(lower=ast.BinOp(left=idx(), op=ast.Add(), right=ast.Constant(value=1)), upper=None, step=None), ctx=ast.Load())
+            new_v = ast.BinOp(left=ast.BinOp(left=left, op=ast.Add(), right=ast.List(elts=[e], ctx=ast.Load())), op=ast.Add(), right=right)
+            body[k:k + 2] = [ast.Assign(targets=[ast.Name(id=t, ctx=ast.Store())], value=new_v)]
+            break
+    return fn
+
+
 def expressions(fn):
+    fn = _copy_overwrite(fn)
     fn = _ExprCanon(_list_names(fn)).visit(fn)
+    # P = P
+    for owner, f, stmts in _blocks(fn):
+        kept = []
+        for st in stmts:
+            if isinstance(st, ast.Assign) and len(st.targets) == 1 and _is_place(st.value) and _dump_noctx(st.targets[0]) == _dump_noctx(st.value):
+                continue
+            kept.append(st)
+        setattr(owner, f, kept)
     # a, b = e1, e2  ->  a = e1 ; b = e2   (when independent)   and   a, b, c = (None,) * 3
     for owner, f, stmts in _blocks(fn):
         new: List[ast.stmt] = []
@@ -1126,6 +1290,7 @@ def inline_temporaries(fn):
                     continue
                 # the variable itself is never mutated / used as a store base
                 mutated = False
+                rebinding = False
                 for n in _walk_no_nested(fn):
                     if isinstance(n, ast.Call) and isinstance(n.func, ast.Attribute) and isinstance(n.func.value, ast.Name) and n.func.value.id == v and n.func.attr in MUTATORS and n.func.attr not in PANDAS_PURE:
                         mutated = True
@@ -1137,9 +1302,13 @@ def inline_temporaries(fn):
                             mutated = True
                     if isinstance(n, ast.AugAssign) and isinstance(n.target, ast.Name) and n.target.id == v:
                         mutated = True
+                        rebinding = True
                     if isinstance(n, ast.Call) and any(k.arg == "inplace" for k in n.keywords) and isinstance(n.func, ast.Attribute) and isinstance(n.func.value, ast.Name) and n.func.value.id == v:
                         mutated = True
-                if mutated:
+                # a temporary that merely names an existing place (x = d[k] ; x.append(v) ; d[k] = x) may
+                # be replaced by the place even though it is mutated: the same object is mutated
+                is_place = _is_place(rhs) and not rebinding
+                if mutated and not is_place:
                     continue
                 fresh = isinstance(rhs, (ast.List, ast.ListComp, ast.Dict, ast.DictComp, ast.Set, ast.SetComp, ast.Call, ast.BinOp))
                 if len(uses) > 1 and fresh:
@@ -1152,10 +1321,12 @@ def inline_temporaries(fn):
                             par[id(ch)] = n
                     for u in uses:
                         p = par.get(id(u))
-                        if isinstance(p, ast.Call) and u in p.args and not (isinstance(p.func, ast.Name) and p.func.id in ("len", "any", "all", "list", "sorted", "set", "max", "min", "sum", "str", "zip", "enumerate", "isinstance", "tuple", "dict", "range", "unique", "isna", "notna", "isnan")):
+                        if isinstance(p, ast.Call) and u in p.args and not _pure_callee(p):
                             ok = False
                         if isinstance(p, ast.keyword):
-                            ok = False
+                            pc = par.get(id(p))
+                            if not (isinstance(pc, ast.Call) and _pure_callee(pc)):
+                                ok = False
                         if isinstance(p, (ast.Return, ast.Assign)) and getattr(p, "value", None) is u:
                             ok = False  # escapes under another name
                         if isinstance(p, (ast.List, ast.Tuple, ast.Dict, ast.Set)):
@@ -1246,8 +1417,9 @@ def _comp_bound(e) -> Set[str]:
 
 
 def split_variables(fn):
-    """A name assigned several times by plain assignments whose live ranges are disjoint (every use
-    is reached by exactly one of the assignments) is split into one name per assignment."""
+    """A name bound several times (plain assignments, `for` targets, a parameter that is re-assigned)
+    whose live ranges are disjoint -- every use is reached by exactly one binding -- is split into one
+    name per binding.  Pure renaming."""
     order, chain = _stmt_positions(fn)
     stmt_of = _stmt_of(fn)
     block_of: Dict[int, List[ast.stmt]] = {}
@@ -1258,23 +1430,55 @@ def split_variables(fn):
     stores: Dict[str, List[ast.Name]] = {}
     loads: Dict[str, List[ast.Name]] = {}
     comp_t = {id(x) for c in _walk_no_nested(fn) if isinstance(c, ast.comprehension) for x in ast.walk(c.target)}
+    for_targets: Dict[int, ast.For] = {}
     for n in _walk_no_nested(fn):
-        if isinstance(n, ast.Name):
+        if isinstance(n, ast.For):
+            for x in ast.walk(n.target):
+                if isinstance(x, ast.Name):
+                    for_targets[id(x)] = n
+    nested_names: Set[str] = set()
+    for n in _walk_no_nested(fn):
+        if isinstance(n, (ast.Lambda, ast.FunctionDef, ast.AsyncFunctionDef)):
+            nested_names |= {x.id for x in ast.walk(n) if isinstance(x, ast.Name)}
+    # names bound by a comprehension are local to it: occurrences inside are not occurrences of the
+    # function-level variable (except in the first iterable, evaluated outside)
+    comp_local: Set[int] = set()
+    for c in _walk_no_nested(fn):
+        if isinstance(c, (ast.ListComp, ast.DictComp, ast.SetComp, ast.GeneratorExp)):
+            bound = set()
+            for g in c.generators:
+                bound |= {x.id for x in ast.walk(g.target) if isinstance(x, ast.Name)}
+            first_iter_ids = {id(x) for x in ast.walk(c.generators[0].iter)}
+            for x in ast.walk(c):
+                if isinstance(x, ast.Name) and x.id in bound and id(x) not in first_iter_ids:
+                    comp_local.add(id(x))
+    for n in _walk_no_nested(fn):
+        if isinstance(n, ast.Name) and id(n) not in comp_t and id(n) not in comp_local:
             (stores if isinstance(n.ctx, (ast.Store, ast.Del)) else loads).setdefault(n.id, []).append(n)
     for v, sts in stores.items():
-        if v in params or len(sts) < 2 or any(id(s) in comp_t for s in sts):
+        n_defs = len(sts) + (1 if v in params else 0)
+        if n_defs < 2 or v in nested_names or v == "self":
             continue
-        defs = []
+        # (position, scope block, node to rename or None for the parameter, loop or None)
+        defs: List[Tuple[int, List[ast.stmt], Optional[ast.Name], Optional[ast.For], Optional[ast.stmt]]] = []
         ok = True
+        if v in params:
+            defs.append((-1, fn.body, None, None, None))
         for s in sts:
+            if id(s) in for_targets:
+                loop = for_targets[id(s)]
+                defs.append((order[id(loop)], loop.body, s, loop, loop))
+                continue
             st = stmt_of.get(id(s))
             if not (isinstance(st, ast.Assign) and len(st.targets) == 1 and st.targets[0] is s):
                 ok = False
                 break
-            defs.append(st)
-        if not ok or any(v in _comp_bound(n) for n in _walk_no_nested(fn) if isinstance(n, (ast.ListComp, ast.DictComp, ast.SetComp, ast.GeneratorExp))):
+            defs.append((order[id(st)], block_of[id(st)], s, None, st))
+        if not ok:
             continue
-        defs.sort(key=lambda d: order[id(d)])
+        defs.sort(key=lambda d: d[0])
+        if len({d[0] for d in defs}) != len(defs):
+            continue
         assign: Dict[int, int] = {}
         for u in loads.get(v, []):
             us = stmt_of.get(id(u))
@@ -1283,43 +1487,78 @@ def split_variables(fn):
                 break
             upos = order[id(us)]
             anc = [us] + chain[id(us)]
+            in_header = lambda d: d[3] is not None and us is d[3]  # noqa: E731  (the for's own iterable)
             best = None
             for k, d in enumerate(defs):
-                if order[id(d)] >= upos:
+                if d[0] > upos or (d[0] == upos and d[3] is None) or in_header(d):
                     continue
-                if any(a in block_of[id(d)] for a in anc):
+                if d[3] is not None:
+                    if any(a in d[1] for a in anc):
+                        best = k
+                elif any(a in d[1] for a in anc) and d[0] < upos:
                     best = k
             if best is None:
                 ok = False
                 break
             d = defs[best]
+            d_loops = [a for a in (chain[id(d[4])] if d[4] is not None else []) if isinstance(a, (ast.For, ast.While))] + ([d[3]] if d[3] is not None else [])
             for k, d2 in enumerate(defs):
                 if k == best:
                     continue
-                p2 = order[id(d2)]
-                if order[id(d)] < p2 < upos and not any(a in block_of[id(d2)] for a in anc):
-                    ok = False  # a conditional redefinition in between
-                if p2 >= upos and any(isinstance(a, (ast.For, ast.While)) and a in chain[id(d2)] for a in anc):
-                    ok = False  # reaches the use through the loop's back edge
-                if order[id(d)] < p2 < upos and any(a in block_of[id(d2)] for a in anc):
-                    ok = False  # should have been chosen (later definition in scope)
-            # the chosen definition itself inside a loop that the use is outside of: fine (value of the last iteration) -> but then other defs may also reach: refuse
-            if any(isinstance(a, (ast.For, ast.While)) for a in chain[id(d)] if a not in anc):
-                ok = False
+                p2 = d2[0]
+                contains = any(a in d2[1] for a in anc) and not in_header(d2)
+                if d[0] < p2 < upos and not contains:
+                    ok = False  # a conditional / loop-local redefinition in between may or may not have run
+                if d[0] < p2 < upos and contains:
+                    ok = False  # should have been chosen
+                if p2 >= upos and d2[4] is not None:
+                    loops2 = [a for a in chain[id(d2[4])] if isinstance(a, (ast.For, ast.While))] + ([d2[3]] if d2[3] is not None else [])
+                    for L in loops2:
+                        if L in anc and L not in d_loops:
+                            ok = False  # reaches the use through the loop's back edge
             if not ok:
                 break
             assign[id(u)] = best
         if not ok:
             continue
         for k, d in enumerate(defs):
-            if k == 0:
+            if k == 0 or d[2] is None:
                 continue
-            d.targets[0].id = f"{v}__s{k}"
+            d[2].id = f"{v}__s{k}"
         for u in loads.get(v, []):
             k = assign[id(u)]
-            if k:
+            if k and defs[k][2] is not None:
                 u.id = f"{v}__s{k}"
     return fn
+
+
+def _is_place(e) -> bool:
+    """Name / attribute / subscript chain without calls: evaluating it yields an existing object."""
+    while isinstance(e, (ast.Attribute, ast.Subscript)):
+        if isinstance(e, ast.Subscript) and any(isinstance(x, ast.Call) for x in ast.walk(e.slice)):
+            return False
+        if isinstance(e, ast.Subscript) and isinstance(e.slice, ast.Slice):
+            return False
+        e = e.value
+    return isinstance(e, ast.Name)
+
+
+def _pure_callee(c: ast.Call) -> bool:
+    """A call that neither changes nor keeps its arguments (as far as the model knows)."""
+    f = c.func
+    if any(k.arg == "inplace" for k in c.keywords):
+        return False
+    if isinstance(f, ast.Name):
+        if f.id in _BUILTIN_PURE or f.id in ("unique", "isna", "notna", "isnan", "isfinite", "isclose", "crosstab", "kruskal", "chi2_contingency", "array", "select", "digitize", "in1d", "quantile", "argmin", "argmax"):
+            return True
+        return f.id in _PURE_FUNCS and not f.id[:1].isupper()
+    if isinstance(f, ast.Attribute):
+        if f.attr in MUTATORS and f.attr not in PANDAS_PURE:
+            return False
+        if f.attr in _REPO_FUNCS and f.attr not in _LIB_PURE_METHODS:
+            return f.attr in _PURE_FUNCS
+        return True  # a pandas / numpy method
+    return False
 
 
 def _header_effects(st):
@@ -1367,29 +1606,106 @@ def _replace_node(root, old, new):
 # ---------------------------------------------------------------------------------------------
 # pass 6: canonical names and canonical order of independent statements
 # ---------------------------------------------------------------------------------------------
-def _simple_pure_assign(st) -> bool:
-    return isinstance(st, ast.Assign) and len(st.targets) == 1 and isinstance(st.targets[0], ast.Name) and not _impure(st.value) and not any(
-        isinstance(n, ast.Call) and not (isinstance(n.func, ast.Name) and n.func.id in ("len", "list", "sorted", "set", "dict", "tuple", "str", "int", "float", "any", "all", "max", "min", "sum", "GroupedList", "range", "zip", "enumerate"))
-        and not (isinstance(n.func, ast.Attribute) and n.func.attr in ("values", "get", "keys", "items", "copy", "get_group", "contains", "index", "unique", "isna", "notna", "sum", "mean", "astype"))
-        for n in ast.walk(st.value)
-    )
+class _Eff:
+    __slots__ = ("reads", "writes", "attr_reads", "attr_writes", "opaque", "jump", "local_only")
+
+
+def _effects(st) -> _Eff:
+    e = _Eff()
+    e.reads, e.writes, e.attr_reads, e.attr_writes = set(), set(), set(), set()
+    e.opaque = False
+    e.jump = False
+    comp_t = {id(x) for c in [st] + list(_walk_no_nested(st)) if isinstance(c, ast.comprehension) for x in ast.walk(c.target)}
+    bound = set()
+    for c in [st] + list(_walk_no_nested(st)):
+        if isinstance(c, ast.comprehension):
+            bound |= {x.id for x in ast.walk(c.target) if isinstance(x, ast.Name)}
+    for n in [st] + list(_walk_no_nested(st)):
+        if isinstance(n, (ast.Return, ast.Raise, ast.Assert, ast.Continue, ast.Break, ast.Yield, ast.YieldFrom, ast.Global, ast.Nonlocal, ast.Import, ast.ImportFrom, ast.FunctionDef, ast.ClassDef, ast.Lambda, ast.With, ast.Try)):
+            e.jump = True
+        if isinstance(n, ast.Name) and id(n) not in comp_t and n.id not in bound:
+            if isinstance(n.ctx, ast.Load):
+                e.reads.add(n.id)
+            else:
+                e.writes.add(n.id)
+        elif isinstance(n, ast.Attribute):
+            if isinstance(n.ctx, ast.Load):
+                e.attr_reads.add(n.attr)
+            else:
+                e.attr_writes.add(n.attr)
+        if isinstance(n, (ast.Attribute, ast.Subscript)) and isinstance(n.ctx, (ast.Store, ast.Del)):
+            base = n.value
+            while isinstance(base, (ast.Attribute, ast.Subscript, ast.Call)):
+                if isinstance(base, ast.Attribute):
+                    e.attr_writes.add(base.attr)
+                base = base.func if isinstance(base, ast.Call) else base.value
+            if isinstance(base, ast.Name):
+                e.writes.add(base.id)
+        if isinstance(n, ast.AugAssign) and isinstance(n.target, ast.Name):
+            e.reads.add(n.target.id)
+        if isinstance(n, ast.Call):
+            f = n.func
+            if any(k.arg == "inplace" for k in n.keywords):
+                e.opaque = True
+            if isinstance(f, ast.Attribute):
+                if f.attr in MUTATORS and f.attr not in PANDAS_PURE:
+                    base = f.value
+                    while isinstance(base, (ast.Attribute, ast.Subscript, ast.Call)):
+                        if isinstance(base, ast.Attribute):
+                            e.attr_writes.add(base.attr)
+                        base = base.func if isinstance(base, ast.Call) else base.value
+                    if isinstance(base, ast.Name):
+                        e.writes.add(base.id)
+                    if f.attr in _REPO_FUNCS and not (isinstance(f.value, ast.Name) and f.value.id != "self"):
+                        e.opaque = True
+                elif f.attr in _REPO_FUNCS and f.attr not in _PURE_FUNCS and f.attr not in _LIB_PURE_METHODS:
+                    e.opaque = True
+                elif isinstance(f.value, ast.Call) and isinstance(f.value.func, ast.Name) and f.value.func.id == "super":
+                    e.opaque = True
+            elif isinstance(f, ast.Name):
+                if f.id in ("print", "warn", "next", "setattr", "delattr", "exec", "eval", "open"):
+                    e.opaque = True
+                elif f.id in _REPO_FUNCS and f.id not in _PURE_FUNCS:
+                    e.opaque = True
+                elif f.id not in _BUILTIN_PURE and f.id not in _REPO_FUNCS and not f.id[:1].isupper():
+                    pass  # an imported library function: assumed not to change its arguments
+            else:
+                e.opaque = True
+    e.local_only = not e.attr_reads and not e.attr_writes and not any(isinstance(n, (ast.Call, ast.Subscript)) for n in [st] + list(_walk_no_nested(st)))
+    return e
+
+
+def _commute(a: _Eff, b: _Eff) -> bool:
+    if a.jump or b.jump:
+        return False
+    if a.opaque and b.opaque:
+        return False
+    if a.opaque or b.opaque:
+        o, x = (a, b) if a.opaque else (b, a)
+        if not x.local_only:
+            return False
+        return not (x.writes & (o.reads | o.writes)) and not (o.writes & (x.reads | x.writes))
+    if a.writes & (b.reads | b.writes) or b.writes & a.reads:
+        return False
+    if a.attr_writes & (b.attr_reads | b.attr_writes) or b.attr_writes & a.attr_reads:
+        return False
+    return True
 
 
 def sort_independent(fn, masked_key):
     for owner, f, stmts in _blocks(fn):
         n = len(stmts)
+        if n < 2:
+            continue
+        effs = [_effects(st) for st in stmts]
+        keys = [masked_key(st) for st in stmts]
         for _ in range(n):
             swapped = False
             for i in range(n - 1):
-                a, b = stmts[i], stmts[i + 1]
-                if not (_simple_pure_assign(a) and _simple_pure_assign(b)):
-                    continue
-                da, db = a.targets[0].id, b.targets[0].id
-                ua, ub = _names_loaded(a.value), _names_loaded(b.value)
-                if da == db or da in ub or db in ua:
-                    continue
-                if masked_key(b) < masked_key(a):
-                    stmts[i], stmts[i + 1] = b, a
+                if keys[i + 1] < keys[i] and _commute(effs[i], effs[i + 1]):
+                    stmts[i], stmts[i + 1] = stmts[i + 1], stmts[i]
+                    effs[i], effs[i + 1] = effs[i + 1], effs[i]
+                    keys[i], keys[i + 1] = keys[i + 1], keys[i]
                     swapped = True
             if not swapped:
                 break
@@ -1570,7 +1886,7 @@ def load_reference_sources() -> Dict[str, str]:
 _REF_CACHE: Dict[str, Tuple[ast.Module, Dict[str, str]]] = {}
 
 
-def substitute_equivalents(rel: str, tree: ast.Module, ref_sources: Dict[str, str], stats: Dict[str, list]) -> None:
+def substitute_equivalents(rel: str, tree: ast.Module, ref_sources: Dict[str, str], stats: Dict[str, list], extra_methods: Optional[Dict[str, ast.FunctionDef]] = None, used_out: Optional[Set[str]] = None) -> None:
     src = ref_sources.get(rel)
     if src is None:
         return
@@ -1607,6 +1923,8 @@ def substitute_equivalents(rel: str, tree: ast.Module, ref_sources: Dict[str, st
                 for c2, hs in new_class_helpers.items():
                     for m, h in hs.items():
                         helpers_for_class.setdefault(m, h)
+                for m, h in (extra_methods or {}).items():
+                    helpers_for_class.setdefault(m, h)
             table = HelperTable(new_module_helpers, helpers_for_class, aliases.get(cls, {}) if cls else {}, cls)
             k_new = canon_key(node, table)
             k_ref = canon_key(ref_node, None)
@@ -1624,6 +1942,8 @@ def substitute_equivalents(rel: str, tree: ast.Module, ref_sources: Dict[str, st
         container[idx] = repl
         substituted.append(q)
         used_helpers |= {(cls or "") + ":" + h for h in table.used}
+        if used_out is not None:
+            used_out |= set(table.used)
     # helpers that were inlined into proved-equivalent functions and are used nowhere else vanish
     if used_helpers:
         remaining_text = None
@@ -1658,3 +1978,56 @@ def substitute_equivalents(rel: str, tree: ast.Module, ref_sources: Dict[str, st
                                 cont.remove(m)
     stats.setdefault("changed", []).extend(f"{rel}::{q}" for q in changed)
     stats.setdefault("proved_equivalent", []).extend(f"{rel}::{q}" for q in substituted)
+
+
+def substitute_all(trees: Dict[str, ast.Module], sources: Dict[str, str], ref_sources: Dict[str, str], stats: Dict[str, list]) -> None:
+    """All modules at once: new private methods can be called from another module (a helper added
+    to a base class)."""
+    global _REPO_FUNCS, _PURE_FUNCS
+    ref_trees = []
+    for rel, src in ref_sources.items():
+        if rel not in _REF_CACHE:
+            rt = ast.parse(src)
+            _REF_CACHE[rel] = (rt, _global_bindings(rt))
+        ref_trees.append(_REF_CACHE[rel][0])
+    repo_a, pure_a = pure_function_names(ref_trees)
+    repo_b, pure_b = pure_function_names(list(trees.values()))
+    _REPO_FUNCS = repo_a | repo_b
+    _PURE_FUNCS = {f for f in (pure_a | pure_b) if (f not in repo_a or f in pure_a) and (f not in repo_b or f in pure_b)}
+    new_methods: Dict[str, ast.FunctionDef] = {}
+    owners: Dict[str, Tuple[str, List[ast.stmt]]] = {}
+    dup: Set[str] = set()
+    for rel, tree in trees.items():
+        src = ref_sources.get(rel)
+        if src is None or src == sources.get(rel):
+            continue
+        if rel not in _REF_CACHE:
+            rt = ast.parse(src)
+            _REF_CACHE[rel] = (rt, _global_bindings(rt))
+        ref_funcs = _function_table(_REF_CACHE[rel][0])
+        for q, (node, cont, cls) in _function_table(tree).items():
+            if cls and q not in ref_funcs:
+                m = q.split(".", 1)[1]
+                if m in new_methods:
+                    dup.add(m)
+                new_methods[m] = node
+                owners[m] = (rel, cont)
+    for m in dup:
+        new_methods.pop(m, None)
+    used: Set[str] = set()
+    for rel, tree in trees.items():
+        if ref_sources.get(rel) is None or ref_sources.get(rel) == sources.get(rel):
+            continue
+        substitute_equivalents(rel, tree, ref_sources, stats, extra_methods=new_methods, used_out=used)
+    # a helper inlined everywhere it was called disappears from its class
+    for m in sorted(used):
+        if m not in owners:
+            continue
+        rel, cont = owners[m]
+        node = new_methods.get(m)
+        if node is None or node not in cont:
+            continue
+        cont.remove(node)
+        still = any(isinstance(n, ast.Attribute) and n.attr == m and isinstance(n.ctx, ast.Load) for t in trees.values() for n in ast.walk(t))
+        if still:
+            cont.append(node)
